@@ -102,6 +102,11 @@ def steady_state_transport_solver(
     if np.ndim(levels) == 0:
         levels = np.array([levels])
 
+    # sweep over the sorted unique levels; results are handed back in the
+    # order (and multiplicity) in which the levels were requested
+    requested_levels = np.asarray(levels)
+    levels, level_slot = np.unique(requested_levels, return_inverse=True)
+
     nlvls = len(levels)
 
     # halo to deal with periodicity of FFT
@@ -249,6 +254,11 @@ def steady_state_transport_solver(
 
         if nz - 1 in levels:
             tfftp[lvl, 0, 0] = tfftp00
+
+    # back to the order in which the levels were requested
+    tfftp = tfftp[level_slot]
+    tfftq = tfftq[level_slot]
+    levels = requested_levels
 
     # shift green function in Fourier space to measurement point
     if footprint:
